@@ -28,6 +28,7 @@ def gen_history(rng, maxlen, plots=True):
     nq = rng.randint(1, 3)
     reg = {f"k{i}": rng.choice(DURS) for i in range(2)}
     cmds, entries, flattened, unrolled = [], [], False, False   # entries: 'leaf' | 'sub'
+    depth_glob = 0
     n = rng.randint(4, maxlen)
     while len(cmds) < n:
         r = rng.random()
@@ -53,6 +54,10 @@ def gen_history(rng, maxlen, plots=True):
             cmds.append(['setreg', rng.choice(list(reg)), rng.choice(DURS)])
         elif r < 0.75:
             cmds.append(['global', gen_env(rng)])
+            depth_glob += 1
+        elif r < 0.79 and depth_glob > 0:
+            cmds.append(['unglobal'])
+            depth_glob -= 1
         else:
             o = rng.choice(OBS)
             if o == 'plot' and not plots:
@@ -62,9 +67,46 @@ def gen_history(rng, maxlen, plots=True):
     return {'cmds': cmds, 'env': gen_env(rng), 'reg': reg}
 
 
+def L(cls, q, **kw):
+    d = {'t': 'leaf', 'cls': cls, 'q': q, 'rel': None}
+    d.update(kw)
+    return d
+
+
+def fixed_histories():
+    """one targeted history per schedule-mutation point (memo invalidation sites), run on every check"""
+    env = {'READOUT': 2.0, 'MICROWAVE': 1.0, 'FLUX': 1.0, 'RESET': 2.0}
+    reg = {'k0': 1.0, 'k1': 2.0}
+    rep = ['sub', 2, [L('Rx90', [0]), L('DispersiveMeasure', [0], tag='a')]]
+    hs = [
+        # leaving / entering a global-duration override around an unrolled repetition (multi-links)
+        [rep, ['mods'], ['obs', 'listing'], ['global', dict(env, READOUT=5.0)], ['obs', 'listing'], ['unglobal'], ['obs', 'listing'], ['obs', 'duration']],
+        [rep, ['mods'], ['global', dict(env, READOUT=5.0)], ['obs', 'listing'], ['unglobal'], ['obs', 'listing']],
+        [rep, ['mods'], ['global', dict(env, READOUT=5.0)], ['unglobal'], ['obs', 'listing']],
+        # a registry duration changes after an observation
+        [['add', L('Wait', [0], dur=['reg', 'k0'], ch='ALL')], ['add', L('Rx180', [0])], ['add', L('Wait', [0], dur=['fixed', 3.0], ch='ALL')],
+         ['obs', 'listing'], ['setreg', 'k0', 5.0], ['obs', 'listing'], ['obs', 'duration']],
+        # duration queried before the operations of a nested block (relation hand-off)
+        [['add', L('Wait', [0], dur=['fixed', 5.0], ch='ALL')], ['sub', 1, [L('Wait', [0], dur=['fixed', 1.0], ch='ALL'), L('Barrier', [0, 1]), L('Wait', [1], dur=['fixed', 3.0], ch='ALL')]],
+         ['add', L('Wait', [1], dur=['fixed', 4.0], ch='ALL')], ['obs', 'duration'], ['obs', 'listing']],
+        # an operation added after an observation
+        [['add', L('Rx180', [0])], ['obs', 'listing'], ['add', L('CPhase', [0, 1])], ['add', L('DispersiveMeasure', [1], tag='')], ['obs', 'listing'], ['obs', 'acq']],
+        # plotting (its own override) between observations, settings different from the drawing's
+        [['sub', 2, [L('Rx180', [0]), L('Wait', [1], dur=['fixed', 1.0], ch='ALL')]], ['mods'], ['obs', 'plot'], ['obs', 'listing']],
+        [['sub', 2, [L('Rx180', [0]), L('Wait', [1], dur=['fixed', 1.0], ch='ALL')]], ['mods'], ['obs', 'listing'], ['obs', 'plot'], ['obs', 'listing']],
+        # listing, then copying by nesting and unrolling (value-equality of sub-circuits sharing a handed-down link: F12)
+        [['sub', 2, [{'t': 'sub', 'reps': 2, 'body': [L('DispersiveMeasure', [0], tag='a'), L('DispersiveMeasure', [1], tag='')]}, L('DispersiveMeasure', [0], tag='b')]],
+         ['obs', 'acq'], ['mods'], ['obs', 'acq'], ['obs', 'listing']],
+    ]
+    out = []
+    for i, h in enumerate(hs):
+        out.append({'cmds': h, 'env': dict(env, MICROWAVE=5.0) if i in (6, 7) else env, 'reg': reg})
+    return out
+
+
 def gen_cases(rng, tier):
     n = 110 if tier == 'quick' else 2000
-    return [gen_history(rng, rng.choice([6, 9, 14]), plots=(i % 3 == 0)) for i in range(n)]
+    return fixed_histories() + [gen_history(rng, rng.choice([6, 9, 14]), plots=(i % 3 == 0)) for i in range(n)]
 
 
 # ------------------------------------------------------------------------------------------------ Coq printing
@@ -95,6 +137,8 @@ def c_hcmd(cmd, reg_ids, counter):
     if k == 'global':
         e = cmd[1]
         return f"(HGlobal {cz(t8(e['READOUT']))} {cz(t8(e['MICROWAVE']))} {cz(t8(e['FLUX']))} {cz(t8(e['RESET']))})"
+    if k == 'unglobal':
+        return "HUnglobal"
     if k == 'obs':
         return {'listing': 'HObsListing', 'duration': 'HObsDuration'}.get(cmd[1], 'HObsOther')
     raise ValueError(k)
@@ -164,7 +208,7 @@ def nontrivial(c, o):
 
 def kind(c):
     ks = {cmd[0] for cmd in c['cmds']}
-    return '+'.join(sorted(ks & {'mods', 'flatten', 'setreg', 'global', 'grow', 'sub'})) or 'adds-only'
+    return '+'.join(sorted(ks & {'mods', 'flatten', 'setreg', 'global', 'unglobal', 'grow', 'sub'})) or 'adds-only'
 
 
 def sample(c, o):
